@@ -285,7 +285,7 @@ def _apply_unitary(val: Any, args: ApplyChannelArgs) -> np.ndarray | None:
     if left_result is None:
         return None
     right_args = ApplyUnitaryArgs(
-        target_tensor=np.conjugate(left_result),
+        target_tensor=np.asarray(np.conjugate(left_result)),
         available_buffer=args.out_buffer,
         axes=args.right_axes,
     )
